@@ -1057,10 +1057,21 @@ def quantXcfg (d : XcfgS) : XcfgRead :=
      ⟨capitalize a.el, ⟨aq * roundSig 8 (pos.getD 0 0), aq * roundSig 8 (pos.getD 1 0), aq * roundSig 8 (pos.getD 2 0)⟩, vel,
       names.zip ((a.aux ++ (if L.occ then [a.occ] else []) ++ us).map (roundSig 8))⟩)⟩
 
-/-- the full-strength statement for XCFG (kept visible; the correspondence checks it on every case,
-the proof is not done) -/
+/-- consistency of the document type (not a restriction on structures): every atom carries exactly one
+value per stored, non-derived auxiliary, and every atom has a velocity when the first one has.  On a
+structure that violates either, `P_xcfg.toLines` raises `AttributeError` (`a.<aux>` / `a.v` missing), so
+no text exists; the model's writer is total and would print short entry lines there. -/
+def wfXcfg (d : XcfgS) : Bool :=
+  d.atoms.all (fun a => a.aux.length == (d.storedAux.filter (fun n => !isDerivedAux n)).length) &&
+  ((match d.atoms with | a :: _ => a.v.isNone | [] => true) || d.atoms.all (fun a => a.v.isSome))
+
+/-- hypothesis of the XCFG round-trip theorem: inside the range, and a consistent document -/
+def reprXcfg (d : XcfgS) : Bool := rangeXcfg d && wfXcfg d
+
+/-- the full-strength statement for XCFG (proved: `DS.Formats.roundtrip_xcfg`, `DS.Props.C04.roundtrip_xcfg`;
+also checked on every generated case by the correspondence) -/
 def roundtrip_xcfg_statement : Prop :=
-  ∀ d : XcfgS, rangeXcfg d = true → parseXcfg (ofText (toText (writeXcfg d))) = .ok (quantXcfg d)
+  ∀ d : XcfgS, reprXcfg d = true → parseXcfg (ofText (toText (writeXcfg d))) = .ok (quantXcfg d)
 
 
 /-! ## CIF (`p_cif.py`): the text `P_cif.toLines` produces, and a reader of exactly that layout
@@ -1223,8 +1234,8 @@ def quantCif (d : CifS) : CifRead :=
     ⟨p.1, capitalize a.el, a.xyz.map (roundTo 6), roundTo 6 a.uiso, ani, roundTo 4 a.occ,
      if ani then some ([0, 4, 8, 1, 2, 5].map (fun k => roundTo 6 (a.u.getD k 0))) else none⟩)⟩
 
-/-- the full-strength statement for CIF on the writer's own layout (kept visible; checked on
-every generated case by the correspondence, not proved) -/
+/-- the full-strength statement for CIF on the writer's own layout (proved: `DS.Formats.roundtrip_cif`,
+`DS.Props.C04.roundtrip_cif`; also checked on every generated case by the correspondence) -/
 def roundtrip_cif_statement : Prop :=
   ∀ d : CifS, reprCif d = true → parseCif (ofText (toText (writeCif d))) = .ok (quantCif d)
 
@@ -1472,7 +1483,7 @@ def xcfgHandle (ws : List String) : Option String :=
       | some d =>
         if cmd == "fmt.xcfg.write" then some (encodeLines (writeXcfg d))
         else if cmd == "fmt.xcfg.quant" then some (showXcfgRead (quantXcfg d))
-        else if cmd == "fmt.xcfg.repr" then some s!"repr={rangeXcfg d} range={rangeXcfg d}"
+        else if cmd == "fmt.xcfg.repr" then some s!"repr={reprXcfg d} range={rangeXcfg d}"
         else some (showRes showXcfgRead (parseXcfg (ofText (toText (writeXcfg d)))))
     else none
   | [] => none
